@@ -328,7 +328,7 @@ class RawAlgorithmsMixIn:
         D = x_data.shape[0]
         xmask = numpy.less_equal(x_data[0], y_data[0])
         ymask = 1 - xmask
-        z_data = numpy.empty_like(x_data)
+        z_data = numpy.empty(x_data.shape, dtype=numpy.result_type(x_data, y_data))
         for d in range(D):
             numpy.add(xmask * x_data[d], ymask * y_data[d], out=z_data[d])
         if out is not None:
@@ -345,7 +345,7 @@ class RawAlgorithmsMixIn:
         D = x_data.shape[0]
         xmask = numpy.greater_equal(x_data[0], y_data[0])
         ymask = 1 - xmask
-        z_data = numpy.empty_like(x_data)
+        z_data = numpy.empty(x_data.shape, dtype=numpy.result_type(x_data, y_data))
         for d in range(D):
             numpy.add(xmask * x_data[d], ymask * y_data[d], out=z_data[d])
         if out is not None:
